@@ -50,6 +50,9 @@ K_NESTED_ENUM = "cpp-nested-enum-name-member-collision"
 K_TYPE_GEN = "cpp-type-name-generated-collision"
 K_UNSUFFIXED = "cpp-enum-constant-unsuffixed-literal"
 K_KEYWORD = "cpp-keyword-accepted-as-name"
+K_ARRAY_EQUALS = "cpp-equals-array-of-parameterized-structs"
+K_GUARD_NORM = "cpp-header-guard-collision-normalised-path"   # distinct paths equal after the documented normalisation
+K_GUARD = "cpp-header-guard-collision"                        # distinct guards by the documented rule, equal in the header
 
 # The static_assert conditions of runtime/cpp/*.h that section 2 of Names/Cpp.v was written against (those that
 # depend on IR quantities are modelled; the others are type-level or platform facts).  Compared with the working
@@ -160,7 +163,7 @@ def literal_driver(cases):
 # (ii) primitive sizes: front end verdict vs prim_size_ok
 # ------------------------------------------------------------------------------
 
-def compile_in_process(files, main="m.emb", traits=True):
+def compile_in_process(files, main=None, traits=True):
     """(status, ir, header, messages): 0 accepted, 1 front end rejects, 2 back end rejects."""
     from compiler.front_end import glue
     from compiler.back_end.cpp import header_generator as hg
@@ -173,6 +176,7 @@ def compile_in_process(files, main="m.emb", traits=True):
             return open(p).read(), None
         return None, ["file not found: " + fn]
 
+    main = main or next(iter(files))
     ir, _, errors = glue.parse_emboss_file(main, reader)
     if errors:
         return 1, None, None, [e[0].message for e in errors]
@@ -309,7 +313,7 @@ DRIVER_HEAD = r"""
 #include <sstream>
 #include <string>
 #include <type_traits>
-#include "m.emb.h"
+%(includes)s
 template <class T> static void use(const T &) {}
 template <class U> static std::string num(U v) {
   std::ostringstream o;
@@ -331,13 +335,26 @@ def impl_spelling(name, attr):
     return [name_conversion.convert_case("SHOUTY_CASE", c, name) for c in cases]
 
 
+def main_file(md):
+    return md.get("main") or next(iter(md["files"]))
+
+
+def driver_head(md):
+    # the main header first (it must be self-contained), then every other header of the set, in one translation unit
+    files = [main_file(md)] + [f for f in md["files"] if f != main_file(md)]
+    return DRIVER_HEAD % dict(includes="\n".join('#include "%s.h"' % f for f in files))
+
+
+def ns_of(md, x):
+    return "::" + "::".join(x.get("ns") or md["namespace"])
+
+
 def build_driver(md, traits=True, const_only=False):
     if const_only:
         return build_const_driver(md)
-    ns = "::" + "::".join(md["namespace"])
-    L = [DRIVER_HEAD, "int main() {"]
+    L = [driver_head(md), "int main() {"]
     for i, e in enumerate(md["enums"]):
-        q = ns + "::" + "::".join(e["cpp"])
+        q = ns_of(md, e) + "::" + "::".join(e["cpp"])
         L.append("  {")
         L.append("    typedef %s T;" % q)
         j = 0
@@ -351,6 +368,7 @@ def build_driver(md, traits=True, const_only=False):
         L.append("  }")
     for i, s in enumerate(md["structs"]):
         path = s["cpp"]
+        ns = ns_of(md, s)
         prefix = ns + "".join("::" + c for c in path[:-1])
         nm = path[-1]
         args = []
@@ -358,10 +376,10 @@ def build_driver(md, traits=True, const_only=False):
             if p["type"].startswith("UInt"):
                 args.append("3")
             else:
-                ecpp = ("::imp::ns::Shared" if p["enum"] is None else ns + "::" + "::".join(p["enum"]))
+                ecpp = "::" + "::".join(p.get("enum_ns") or md["namespace"]) + "::" + "::".join(p["enum"])
                 args.append("static_cast</**/%s>(1)" % ecpp)
         a = "".join(x + ", " for x in args)
-        n = max(1, s["size"]) + 8
+        n = 16384 if s.get("dynamic") else max(1, s["size"]) + 8
         L.append("  {")
         L.append("    alignas(8) unsigned char buf[%d]; alignas(8) unsigned char buf2[%d];" % (n, n))
         L.append("    std::memset(buf, 0, sizeof buf); std::memset(buf2, 1, sizeof buf2);")
@@ -396,12 +414,14 @@ def build_driver(md, traits=True, const_only=False):
                 L.append("      use(f.IsComplete()); use(f.SizeIsKnown()); if (f.Ok()) use(f.Equals(f));")
             elif cls == "array":
                 L.append("      use(f.ElementCount()); use(f.SizeInBytes()); if (f.Ok() && f.ElementCount() > 0 && f[0].Ok()) { use(f[0].Read()); use(f.Equals(f)); }")
+            elif cls == "sarray":
+                L.append("      use(f.ElementCount()); use(f.SizeInBytes()); if (f.Ok() && f.ElementCount() > 0) { use(f[0].Ok()); use(f[0].IsComplete()); use(f.Equals(f)); }")
             elif cls in ("vint", "vbool", "venum"):
                 L.append("      if (f.Ok()) { use(f.Read()); use(f.UncheckedRead()); }")
             elif cls == "vconst":
                 L.append('      std::cout << "CONST s=%d k=%s v=" << enum_num(f.Read()) << "\\n";' % (i, fn))
                 L.append("      use(decltype(v)::%s().Read());" % fn)
-            if traits and cls not in ("struct", "array"):
+            if traits and cls not in ("struct", "array", "sarray"):
                 L.append("      use(::emboss::WriteToString(f));")
             L.append("    }")
         L.append("  }")
@@ -411,10 +431,9 @@ def build_driver(md, traits=True, const_only=False):
 
 def build_const_driver(md):
     """Small program that prints the static constants the header exposes (run; compared with the IR)."""
-    ns = "::" + "::".join(md["namespace"])
-    L = [DRIVER_HEAD, "int main() {"]
+    L = [driver_head(md), "int main() {"]
     for i, e in enumerate(md["enums"]):
-        q = ns + "::" + "::".join(e["cpp"])
+        q = ns_of(md, e) + "::" + "::".join(e["cpp"])
         j = 0
         for nm, v, attr in e["values"]:
             for sp in impl_spelling(nm, attr):
@@ -422,7 +441,7 @@ def build_const_driver(md):
                 j += 1
     for i, s in enumerate(md["structs"]):
         path = s["cpp"]
-        q = ns + "".join("::" + c for c in path[:-1]) + "::" + path[-1] + "Writer"
+        q = ns_of(md, s) + "".join("::" + c for c in path[:-1]) + "::" + path[-1] + "Writer"
         L.append('  std::cout << "CONST s=%d k=$max_size_in_bytes v=" << num(%s::MaxSizeInBytes().Read()) << "\\n";' % (i, q))
         L.append('  std::cout << "CONST s=%d k=$min_size_in_bytes v=" << num(%s::MinSizeInBytes().Read()) << "\\n";' % (i, q))
         for f in s["fields"]:
@@ -466,6 +485,7 @@ def build_module(job):
     for sub, flag in (("t", []), ("nt", ["--no-cc-enum-traits"])):
         os.makedirs(os.path.join(d, sub))
         for rel, text in md["files"].items():
+            os.makedirs(os.path.dirname(os.path.join(d, sub, rel)), exist_ok=True)
             with open(os.path.join(d, sub, rel), "w") as f:
                 f.write(text)
         t0 = time.time()
@@ -481,6 +501,10 @@ def build_module(job):
         out["times"]["embossc-" + sub] = time.time() - t0
     if out["embossc"]["t"][0] != 0:
         return out
+    out["guards"] = {}
+    for rel in md["files"]:
+        m = re.search(r"^#ifndef\s+(\S+)", open(os.path.join(d, "t", rel + ".h")).read(), re.M)
+        out["guards"][rel] = m.group(1) if m else None
     for name, traits, const in (("full", True, False), ("notraits", False, False), ("const", True, True)):
         with open(os.path.join(d, "driver_%s.cc" % name), "w") as f:
             f.write(build_driver(md, traits, const))
@@ -510,11 +534,24 @@ def errors_of(log):
     return [l.strip() for l in log.splitlines() if re.search(r"\berror\b", l)]
 
 
-def classify(md, scope_colls, label, log):
+def guard_collisions(guards):
+    """[(file a, file b, documented rule also collides?)] for headers that got the same include guard."""
+    out, items = [], sorted(guards.items())
+    for i in range(len(items)):
+        for j in range(i + 1, len(items)):
+            if items[i][1] == items[j][1]:
+                out.append((items[i][0], items[j][0],
+                            gen_names.header_guard_py(items[i][0]) == gen_names.header_guard_py(items[j][0])))
+    return out
+
+
+def classify(md, scope_colls, label, log, guards=None):
     """Mechanism key of a g++ rejection, from the model's verdict on the scopes first, then from the diagnostics."""
     errs = errors_of(log)
     first = errs[0] if errs else log.strip()[:200]
     feats = set(md["features"])
+    for a, b, documented in guard_collisions(guards or {}):
+        return (K_GUARD_NORM if documented else K_GUARD), "%s and %s share the include guard %s; %s" % (a, b, guards[a], first)
     for sc, colls in scope_colls:
         if colls:
             return COLLISION_KEYS[sc["kind"]](colls[0]), first
@@ -528,6 +565,9 @@ def classify(md, scope_colls, label, log):
         for f in s["fields"]:
             if f["name"] in macros:
                 return K_FIELD_MACRO, first
+    # Equals / UncheckedEquals / WriteArrayToTextStream of GenericArrayView lack the ElementViewParameterTypes pack
+    if errs and "array-of-parameterised-structs" in feats and all("GenericArrayView" in e and "no matching function" in e for e in errs):
+        return K_ARRAY_EQUALS, first
     if "narrowing conversion" in text or "duplicate case value" in text:
         return K_SWITCH, first
     if "use of deleted function" in text and "EmbossReservedVirtual" in text:
@@ -539,8 +579,9 @@ def classify(md, scope_colls, label, log):
     return "cpp-header-rejected:" + re.sub(r"[^a-z]+", "-", re.sub(r"‘[^’]*’|'[^']*'", "", first.split("error:")[-1]).lower()).strip("-")[:60], first
 
 
-def find_struct(ir, path):
-    types = ir.module[0].type
+def find_struct(ir, path, file=None):
+    mod = ir.module[0] if file is None else next(m for m in ir.module if m.source_file_name == file)
+    types = mod.type
     t = None
     for comp in path:
         t = next(x for x in types if x.name.name.text == comp)
@@ -552,7 +593,7 @@ def expected_constants(md, ir):
     from compiler.util import ir_util
     exp = {}
     for i, s in enumerate(md["structs"]):
-        t = find_struct(ir, s["cpp"])
+        t = find_struct(ir, s["cpp"], s.get("file"))
         for f in t.structure.field:
             nm = f.name.name.text
             if nm in ("$max_size_in_bytes", "$min_size_in_bytes") or any(x["name"] == nm and x["cls"] == "vconst" for x in s["fields"]):
@@ -584,7 +625,7 @@ def run_modules(ctx, mods):
         for ft in md["features"]:
             ctx.count("feature:" + ft + (":accepted" if st == 0 else ":rejected"))
         if st != 0:
-            ctx.case(("rejected", md["files"]["m.emb"]), nontrivial=False)
+            ctx.case(("rejected", md["files"][main_file(md)]), nontrivial=False)
             continue
         todo.append((k, md, ir))
     # model verdict on the scopes (Python mirror, validated by Coq below)
@@ -606,7 +647,7 @@ def run_modules(ctx, mods):
     n_ok = 0
     coq_cases = []
     for (k, md, ir), res in zip(todo, results):
-        text = md["files"]["m.emb"]
+        text = "\n".join("# %s\n%s" % kv for kv in md["files"].items()) if len(md["files"]) > 1 else md["files"][main_file(md)]
         if res["embossc"]["t"][0] != 0 or res["embossc"].get("nt", (0,))[0] != 0:
             ctx.violation("embossc-cli-vs-library", "embossc CLI rejects a module the library accepts",
                           dict(kind="names-module", module=strip(md), log=str(res["embossc"])[-2000:]), found_input=True)
@@ -622,7 +663,7 @@ def run_modules(ctx, mods):
         if failed:
             seen = set()
             for label, log in failed:
-                key, first = classify(md, md["_scope_colls"], label, log)
+                key, first = classify(md, md["_scope_colls"], label, log, res.get("guards"))
                 if key in seen:
                     continue
                 seen.add(key)
@@ -658,6 +699,7 @@ def run_modules(ctx, mods):
                 elif got[key] != v:
                     ctx.violation("cpp-static-constant-differs", "static constant %r is %d in C++ but %d in the IR" % (key, got[key], v),
                                   dict(kind="names-module", module=strip(md), constant=str(key), cpp=got[key], ir=v), found_input=True)
+    guard_correspondence(ctx, [(md, res) for (k, md, ir), res in zip(todo, results) if res["embossc"]["t"][0] == 0])
     ctx.obligation("exploration: %d accepted modules outside the refuted classes compile under all %d configurations"
                    % (n_ok, len(CONFIGS)), True)
     # Coq: the Python mirror of the declared identifiers equals the model, and the model's verdict matches g++
@@ -682,6 +724,33 @@ def run_modules(ctx, mods):
         ctx.violation("cpp-names-correspondence", "the model of declared identifiers disagrees with the harness mirror / front end",
                       dict(kind="names-module", module=strip(md), model_outputs=out[:3000],
                            correspondence="Names.Exec.run_scopes"), found_input=False)
+
+
+def guard_correspondence(ctx, built):
+    """built: [(md, res)].  Observed include guards vs the model (Coq) and the python mirror; collisions."""
+    cases, seen = [], set()
+    for md, res in built:
+        for rel, g in (res.get("guards") or {}).items():
+            if (rel, g) in seen:
+                continue
+            seen.add((rel, g))
+            cases.append((fw.coq_codes(rel), fw.coq_codes(g or ""), (md, rel, g)))
+            ctx.count("guard:" + ("in-directory" if "/" in rel else "top-level"))
+    if not cases:
+        return
+    bad = fw.CoqCases(ctx, "guards", HEADER, "run_guard", "run_guard_eqb", "(list N)", "(list N)", shard=400).run(cases)
+    mirror_bad = [c for c in cases if gen_names.header_guard_py(c[2][1]) != c[2][2]]
+    ctx.obligation("correspondence: include guards of %d generated headers follow the documented path rule "
+                   "(Coq model and python mirror)" % len(cases), not bad and not mirror_bad)
+    for idx, out in bad[:2]:
+        md, rel, g = cases[idx][2]
+        colls = [c for c in guard_collisions(dict((r, gg) for r, gg in (next(res for m2, res in built if m2 is md).get("guards") or {}).items()))
+                 if not c[2]]
+        ctx.violation(K_GUARD if colls else "header-guard-correspondence",
+                      "header of %s has include guard %s; the documented rule gives %s%s"
+                      % (rel, g, gen_names.header_guard_py(rel), ("; %s and %s collide" % colls[0][:2]) if colls else ""),
+                      dict(kind="names-module", module=strip(md), file=rel, guard=g, model_outputs=out[:500],
+                           correspondence="Names.Cpp.header_guard vs _generate_header_guard"), found_input=bool(colls))
 
 
 def strip(md):
@@ -721,7 +790,13 @@ def keyword_check(ctx):
 BAD_FEATURES = ["enum-case-collision", "virtual-view-name-collision", "validator-name-collision", "switch-negative-label-on-unsigned",
                 "enum-parameter-type-mismatch", "alias-of-virtual", "enum-name-is-macro", "field-has-prefix-collision",
                 "field-named-private-member", "parameter-named-backing", "nested-enum-named-like-member", "type-named-like-generated",
-                "nested-type-named-like-generated", "field-name-is-macro", "type-named-enumtraits"]
+                "nested-type-named-like-generated", "field-name-is-macro", "type-named-enumtraits", "header-guard-normalised-collision",
+                "array-of-parameterised-structs"]
+
+# shapes every run must contain (well-formed C++ on the unchanged tree); the second component asks the generator for it
+REQUIRED_SHAPES = [("enum-condition-constant-on-left", None), ("param-struct-field-argument-dynamic-location", None),
+                   ("import-same-base-name", "import-same-base-name"), ("import-chain", "import-chain"),
+                   ("import-diamond", "import-diamond"), ("import-punctuation", "import-punctuation")]
 
 
 def generate(ctx, n_random, reserved, macros):
@@ -741,9 +816,14 @@ def generate(ctx, n_random, reserved, macros):
         else:
             ctx.note("generator could not place feature %s" % feat)
     # shapes that must be present in every run (well-formed C++ on the unchanged tree)
-    for feat in ["enum-condition-constant-on-left"]:
-        for attempt in range(80):
-            m = gen_names.NamesModule(ctx.rng, reserved, macros, p_bad=0.0)
+    shapes = list(REQUIRED_SHAPES)
+    if not ctx.thorough():     # the two import shapes beyond the same-base-name one rotate in the quick tier
+        rest = shapes[3:]
+        ctx.rng.shuffle(rest)
+        shapes = shapes[:3] + rest[:1]
+    for feat, force in shapes:
+        for attempt in range(150):
+            m = gen_names.NamesModule(ctx.rng, reserved, macros, p_bad=0.0, force=force)
             if feat in m.features and compile_in_process(m.files)[0] == 0:
                 mods.append(m.to_dict())
                 break
@@ -858,5 +938,5 @@ def _run_check(ctx):
     macros = gen_names.system_macros(gen_names.STANDARDS)
     ctx.extra["system_macros_not_reserved"] = len([m for m in macros if m not in reserved and
                                                     (gen_names.SHOUTY_RE.match(m) or gen_names.SNAKE_RE.match(m))])
-    mods = corpus_modules() + generate(ctx, 150 if ctx.thorough() else 16, reserved, macros)
+    mods = corpus_modules() + generate(ctx, 150 if ctx.thorough() else 10, reserved, macros)
     run_modules(ctx, mods)
